@@ -138,19 +138,22 @@ func c18Do(v *vCore, kind string, w *c18Wrap, user string) (*logical.Response, e
 }
 
 // c18Residue checks that token id record, accessor, lease and cubbyhole of the wrapping token are gone.
-func c18Residue(v *vCore, r *kit.Result, caseID string, salted, cubby, accessorSalted string, wit any, f31 bool) {
+func c18Residue(v *vCore, r *kit.Result, caseID string, salted, cubby, accessorSalted string, wit any, f31, f39 bool) {
+	const f39Class = "C18-F39-inflight-revocation-bails-out-after-concurrent-lease-delete"
 	for _, k := range v.RawKeys("") {
 		switch {
 		case strings.HasSuffix(k, "sys/token/id/"+salted):
 			class := "C18-residue-token"
-			if f31 {
+			if f39 {
+				class = f39Class
+			} else if f31 {
 				class = "C18-F31-use-count-write-after-revoker-delete-resurrects-token-record"
 			}
 			r.Violate(class, caseID, "token id record of the used wrapping token remains: "+k, wit)
 		case accessorSalted != "" && strings.HasSuffix(k, "sys/token/accessor/"+accessorSalted):
-			r.Violate("C18-residue-accessor", caseID, "accessor index of the used wrapping token remains", wit)
+			r.Violate(c18Pick(f39, f39Class, "C18-residue-accessor"), caseID, "accessor index of the used wrapping token remains", wit)
 		case cubby != "" && strings.Contains(k, "/"+cubby+"/"):
-			r.Violate("C18-residue-cubbyhole", caseID, "stored payload of the used wrapping token remains: "+k, wit)
+			r.Violate(c18Pick(f39, f39Class, "C18-residue-cubbyhole"), caseID, "stored payload of the used wrapping token remains: "+k, wit)
 		case strings.Contains(k, "sys/expire/id/") && strings.HasSuffix(k, "/"+salted):
 			// lease may be queued; check expiry
 			if st := c18LeaseStateRaw(v, strings.TrimPrefix(k[strings.Index(k, "sys/expire/id/"):], "sys/expire/id/")); st == "live" {
@@ -361,7 +364,26 @@ func c18Case(t *testing.T, v *vCore, r *kit.Result, rng *kit.Rand, caseID, wkind
 				}
 			}
 		}
-		c18Residue(v, r, caseID, salted, cubby, accSalted, wit, f31)
+		// F39 signature: a revocation in flight (it holds the pending-deletion flag and is about
+		// to look the token up) is overtaken by a concurrent revocation of the same token, which
+		// short-circuits on that flag and deletes the token's lease; the first one then finds a
+		// token without lease, takes lookupInternal's "expiring token without lease" branch -
+		// visible as a request re-creating the lease record after another request deleted it -
+		// and returns without tearing anything down.
+		f39 := false
+		if anyRevoke {
+			delBy := ""
+			for _, st := range sched.Steps {
+				isLease := strings.HasPrefix(st.Key, "sys/expire/id/") && strings.HasSuffix(st.Key, "/"+salted)
+				if isLease && st.Op == "delete" && delBy == "" {
+					delBy = st.Tag
+				}
+				if isLease && st.Op == "put" && delBy != "" && st.Tag != delBy {
+					f39 = true
+				}
+			}
+		}
+		c18Residue(v, r, caseID, salted, cubby, accSalted, wit, f31, f39)
 	}
 	if sched.Overlap() {
 		r.Count("overlapping_schedules", 1)
@@ -371,6 +393,13 @@ func c18Case(t *testing.T, v *vCore, r *kit.Result, rng *kit.Rand, caseID, wkind
 	}
 	r.Sample(wit)
 	return sched, r.NViolations() < 50
+}
+
+func c18Pick(c bool, a, b string) string {
+	if c {
+		return a
+	}
+	return b
 }
 
 func c18Trunc(s string, n int) string {
